@@ -4,7 +4,7 @@ Proof: Poly/Props/C35.lean (registry invariants over all histories: a pending re
 a pending update carries the registered owner's address, a pending quit is for a registered id; requests need the
 owner's witness; a registration is applied only to an unregistered id and stores exactly the approved request; an
 update / removal is applied only to a registered chain with its owner's pending request; removal clears every pending
-request of the id; the registry changes only through applied approvals of that id). Tie: correspondence stream
+request of the id; the registry changes only through applied approvals of that id). Tie: correspondence streams `gov-approvals` and
 `gov-registry` (3 chain ids, 3 owners, requests by owners and non-owners, partial and full approval rounds, directed
 quit -> re-register by another owner -> late approval rounds); the harness evaluates the property on the real handlers
 with its own bookkeeping of who owns / requested what.
